@@ -14,6 +14,9 @@ template <typename T>
     // constexpr auto isLongLong = is_same_v<T, long long>;
     // static_assert(isInt || isLong || isLongLong);
 
+    if (n == T(0)) {
+        return T(0); // clears the sign of a floating-point negative zero
+    }
     if (n >= T(0)) {
         return n;
     }
